@@ -44,7 +44,8 @@ func c12Ops() []histOp {
 		{"delete-digit-script-key", "P.\u09ae\u09be\u09a8\u09e7 = %f; P.\u09ae\u09be\u09a81 = %f; " + del("P", "\"\u09ae\u09be\u09a8\u09e7\"") + " " + Print("P.\u09ae\u09be\u09a81"), false},
 		{"read-after-write", "P.k = %f; " + Print("P.k"), false}, {"read-nested", "Q.sub2 = {d: %f}; " + Print("Q.sub2.d"), false},
 		// faulting steps
-		{"read-absent", Print("P.absent"), true}, {"read-other-digit-script", "P.\u0995\u09e8 = %f; " + Print("P.\u09952"), true}, {"read-other-case", "P.Name = %f; " + Print("P.name"), true}, {"read-on-nil", Print("T.k"), true}, {"read-on-array", Print("arr.k"), true}, {"read-on-number", Print("(5).k"), true}, {"read-on-string", Print(`"s".k`), true},
+		{"read-absent", Print("P.absent"), true}, {"read-absent-as-statement", "P.k; P.absent;", true}, {"read-absent-as-statement-grouped", "(P.absent);", true}, {"read-on-number-as-statement", "P.num = %f; P.num.zz;", true},
+		{"read-on-nil-element-as-statement", "arr[0].gone = nil; arr[0].gone.x;", true}, {"read-removed-via-alias-as-statement", "Q = P; P.tmp2 = %f; " + del("Q", `"tmp2"`) + " P.tmp2;", true}, {"read-other-digit-script", "P.\u0995\u09e8 = %f; " + Print("P.\u09952"), true}, {"read-other-case", "P.Name = %f; " + Print("P.name"), true}, {"read-on-nil", Print("T.k"), true}, {"read-on-array", Print("arr.k"), true}, {"read-on-number", Print("(5).k"), true}, {"read-on-string", Print(`"s".k`), true},
 		{"write-on-nil", "T.k = %f;", true}, {"write-on-array", "arr.k = %f;", true},
 		{"delete-absent", del("P", `"absent"`), true}, {"delete-dotted-path", "P.db = {host: %f, port: %f}; " + del("P", `"db.host"`), true}, {"delete-empty-name", "P.e1 = %f; " + del("P", `""`), true},
 		{"delete-name-with-blank", "P.e2 = %f; " + del("P", `"e2 "`), true}, {"delete-other-case", "P.e3 = %f; " + del("P", `"E3"`), true}, {"delete-bracketed", "P.list = [%f]; " + del("P", `"list[0]"`), true}, {"delete-twice", "P.dd = %f; " + del("P", `"dd"`) + " " + del("P", `"dd"`), true},
@@ -100,6 +101,9 @@ func c12Run(c *Ctx) {
 	for _, src := range []string{
 		// literals are fresh per evaluation; two {} are different objects
 		Lines(Var("a", "{}"), Var("b", "{}"), "a.x = 1;", Print("a"), Print("b"), Fun("mk", "", " "+Ret("{n: 0}")+" "), Var("p", "mk()"), Var("q", "mk()"), "p.n = 5;", Print("p"), Print("q")),
+		// comments of every shape between the parts of object code change nothing
+		Lines(Var("acct", "{ /** owner **/ owner: \"o\", /* balance */ balance: 5, /**** flags ****/ flags: {a: 1}, /***/ z: 0 }"), Print("acct"), Print("acct.owner"), "/**** overrides ****/", "acct.owner = \"p\";", "/* plain */ acct.extra = 1; /** even **/", BI("delete", "acct", `"balance"`)+"; /*** odd ***/", Print("acct"), "/** last **/", Print(BI("keys", "acct"))),
+		Lines("/**/"+Var("o", "{}")+"/****/", "o.a /**/ = /*****/ 1;", "o /* x **/ .b = 2; /** y */", Print("o /***/ .a + o.b"), "/** a ** b *** c **/ "+Print("o")),
 		// nested literals are fresh per evaluation too, however constant they look: a constructor called twice, a loop body
 		Lines(Fun("rec", "", " "+Ret(`{name: "x", opts: {depth: 1, tags: {a: 1}}, list: [{n: 0}]}`)+" "), Var("r1", "rec()"), Var("r2", "rec()"), "r1.opts.depth = 9;", Print("r2.opts.depth"), BI("delete", "r1.opts", `"tags"`)+";", "r1.list[0].n = 5;", Print("r2"), Print("r1"), Print("rec()")),
 		Lines(Var("all", "[]"), For(Var("i", "0"), "i < 3", "i = i + 1", "{ "+Var("o", "{id: 0, pos: {x: 0, y: 0}}")+" o.id = i; o.pos.x = i * 10; all = "+BI("append", "all", "o")+"; }"), Print("all"), "all[0].pos.y = 7;", Print("all[1].pos"), Print("all[2].pos")),
@@ -123,7 +127,7 @@ func c12Run(c *Ctx) {
 func init() {
 	register(&CheckDef{
 		ID:   "C12",
-		Rule: "histories over three object variables with shared ancestry (aliases, an array and an outer object holding them, parameter-writing and parameter-deleting functions) and the key pool {k, ক, x1, মান, ...}: 33 non-faulting step kinds (alias, literals with 0/2/3/6 keys and nested, write new / existing / nil-valued / object-valued property directly, through a parameter, an array element, an outer object; write-then-delete directly, through a parameter, with a computed key, of a nil-valued property; reads) (incl. names differing only in letter case or digit script) and 21 faulting step kinds (read absent, . on nil/array/number/string, write on non-object, delete absent / twice / non-string key / non-object, listings of non-objects); every history of <=2 steps, every 7th of <=3 (quick) / all of <=4 (thorough), each also ended by every faulting step; random histories of 4-34 steps. After every step every live object is printed together with its key list and value list, each listing twice in a row; every program is executed 3 times (hash-iteration order is the schedule). Listings may come in any order but all listings of one unmodified object must agree position-wise (keys with values). Compared with refborno's pure map model. Non-trivial = distinct decided history.",
+		Rule: "histories over three object variables with shared ancestry (aliases, an array and an outer object holding them, parameter-writing and parameter-deleting functions) and the key pool {k, ক, x1, মান, ...}: 33 non-faulting step kinds (alias, literals with 0/2/3/6 keys and nested, write new / existing / nil-valued / object-valued property directly, through a parameter, an array element, an outer object; write-then-delete directly, through a parameter, with a computed key, of a nil-valued property; reads) (incl. names differing only in letter case or digit script) and 26 faulting step kinds (reads that are whole statements included) (read absent, . on nil/array/number/string, write on non-object, delete absent / twice / non-string key / non-object, listings of non-objects); every history of <=2 steps, every 7th of <=3 (quick) / all of <=4 (thorough), each also ended by every faulting step; random histories of 4-34 steps. After every step every live object is printed together with its key list and value list, each listing twice in a row; every program is executed 3 times (hash-iteration order is the schedule). Listings may come in any order but all listings of one unmodified object must agree position-wise (keys with values). Compared with refborno's pure map model. Non-trivial = distinct decided history.",
 		Assumptions: []string{"the order of a key/value listing is not pinned, only its consistency; what কি_রিমুভ returns is not pinned"},
 		Run:         c12Run,
 		Judge:       c12Judge,
